@@ -77,6 +77,34 @@ def type_literals(prog: Prog) -> dict[str, list[tuple[Fn, ast.AST]]]:
     return out
 
 
+# grammar positions the discovery code does not walk, with the reason they are outside what the property quantifies over
+ALLOW_UNWALKED = {
+    ("from_expression", "ml_table_expression"): "ML.PREDICT(MODEL m, (SELECT ...)) is a BigQuery-ML table function that the ANSI grammar inherits; the property quantifies over "
+                                                 "tables, derived tables, joins, CTEs and set operations, not over table functions (rule R01.2 lists function-call FROM items as unsupported)",
+}
+
+
+def norm_path(P: tuple, rec: dict) -> tuple:
+    """A recursive crawl from P0 for type T reaches T at any depth below P0: the path P0/../T/rest names nodes the code reaches as P0/T/rest."""
+    changed = True
+    while changed:
+        changed = False
+        for P0, Ts in rec.items():
+            n0 = len(P0)
+            if P[:n0] != P0:
+                continue
+            for T in Ts:
+                tail = P[n0 + 1:]
+                if T in tail:
+                    idx = n0 + 1 + tail.index(T)
+                    P = P0 + P[idx:]
+                    changed = True
+                    break
+            if changed:
+                break
+    return P
+
+
 def rules(ctx: Ctx) -> None:
     prog = ctx.prog
     vocab = vocabulary()
@@ -286,7 +314,16 @@ def rules(ctx: Ctx) -> None:
                     holds = g.can_hold_subquery(U) or U == "select_statement"
                 if not holds or U in ("keyword",):
                     continue
-                covered = P + (U,) in handled or any(P[:i] in rec and U in rec[P[:i]] for i in range(1, len(P) + 1))
+                covered = P + (U,) in handled or norm_path(P, rec) + (U,) in handled or any(P[:i] in rec and U in rec[P[:i]] for i in range(1, len(P) + 1))
+                if not covered:
+                    # recursive crawls from a prefix of P pick up their target types at any depth: U is covered when every way from U down
+                    # to a SELECT passes one of those types (they form a cut)
+                    crawled = frozenset(t for i in range(1, len(P) + 1) for t in rec.get(P[:i], ())) | frozenset(u_ for _, u_ in ALLOW_UNWALKED)
+                    if crawled and U != "bracketed" and not g.can_hold_subquery(U, avoid=crawled):
+                        covered = True
+                if not covered and (T, U) in ALLOW_UNWALKED:
+                    ctx.allow("R01.5", f"path:{c}:{T}>{U}", lsq.loc(), f"{T} > {U} is not walked", ALLOW_UNWALKED[(T, U)])
+                    continue
                 if (T, U) in demanded_here and covered:
                     continue
                 demanded_here.add((T, U))
